@@ -1,9 +1,14 @@
 """Per-property driver configuration for ./check."""
 
 CONFIG = {
+    "C01": {"timeout_s": {"quick": 900, "thorough": 7200}},
+    "C02": {"timeout_s": {"quick": 900, "thorough": 7200}},
     "C05": {"profiles": ["release", "chk"], "timeout_s": {"quick": 900, "thorough": 7200}},
     "C06": {"timeout_s": {"quick": 900, "thorough": 7200}},
     "C07": {"timeout_s": {"quick": 900, "thorough": 7200}},
     "C08": {"timeout_s": {"quick": 900, "thorough": 7200}},
+    "C09": {"timeout_s": {"quick": 900, "thorough": 7200}},
+    "C10": {"timeout_s": {"quick": 900, "thorough": 7200}},
+    "C11": {"timeout_s": {"quick": 900, "thorough": 7200}},
     "C12": {"timeout_s": {"quick": 900, "thorough": 7200}},
 }
